@@ -42,12 +42,19 @@ theorem get_set_self (T now : Nat) (sp : TD Key Msg) (k : Key) (v : Msg) :
   simp [TD.get, TD.set, accessed_items, alookup_ainsert_self]
 
 theorem feed_first {T now : Nat} {sp : TD Key Msg} {req : Msg} {b : Blk}
-    (h : req.block1 = some b) (h0 : b.num = 0) :
+    (h : req.block1 = some b) (h0 : b.num = 0) (hs : sizeOk b req.payload.length = true) :
     feedAndTake T now sp req =
       if b.more then (sp.set T now (blockKey req) req, .cont b)
       else (delIf (((sp.set T now (blockKey req) req)).accessed T now (blockKey req)) (blockKey req),
             .pass req) := by
-  simp [feedAndTake, h, h0, get_set_self]
+  simp [feedAndTake, h, h0, hs, get_set_self]
+
+/-- block 0 whose payload length contradicts its block size: refused before anything is stored or
+looked up -/
+theorem feed_first_bad {T now : Nat} {sp : TD Key Msg} {req : Msg} {b : Blk}
+    (h : req.block1 = some b) (h0 : b.num = 0) (hs : sizeOk b req.payload.length = false) :
+    feedAndTake T now sp req = (sp, .badRequest) := by
+  simp [feedAndTake, h, h0, hs]
 
 theorem feed_unknown {T now : Nat} {sp : TD Key Msg} {req : Msg} {b : Blk}
     (h : req.block1 = some b) (h0 : b.num ≠ 0) (hl : alookup (blockKey req) sp.items = none) :
@@ -83,7 +90,9 @@ theorem feed_append_ok {T now : Nat} {sp : TD Key Msg} {req self self' : Msg} {b
 
 /-- all outcomes of `feed_and_take` for a request carrying Block1 -/
 theorem feed_cases (T now : Nat) (sp : TD Key Msg) (req : Msg) (b : Blk) (h : req.block1 = some b) :
-    (b.num = 0 ∧ feedAndTake T now sp req =
+    (b.num = 0 ∧ sizeOk b req.payload.length = false ∧
+        feedAndTake T now sp req = (sp, .badRequest)) ∨
+    (b.num = 0 ∧ sizeOk b req.payload.length = true ∧ feedAndTake T now sp req =
         if b.more then (sp.set T now (blockKey req) req, .cont b)
         else (delIf (((sp.set T now (blockKey req) req)).accessed T now (blockKey req)) (blockKey req),
               .pass req)) ∨
@@ -99,21 +108,26 @@ theorem feed_cases (T now : Nat) (sp : TD Key Msg) (req : Msg) (b : Blk) (h : re
           else (delIf (((sp.accessed T now (blockKey req)).mutate (blockKey req) self').accessed T now
                   (blockKey req)) (blockKey req), .pass self')) := by
   by_cases h0 : b.num = 0
-  · exact Or.inl ⟨h0, feed_first h h0⟩
+  · cases hs : sizeOk b req.payload.length with
+    | false => exact Or.inl ⟨h0, rfl, feed_first_bad h h0 hs⟩
+    | true => exact Or.inr (Or.inl ⟨h0, rfl, feed_first h h0 hs⟩)
   · cases hl : alookup (blockKey req) sp.items with
-    | none => exact Or.inr (Or.inl ⟨h0, rfl, feed_unknown h h0 hl⟩)
+    | none => exact Or.inr (Or.inr (Or.inl ⟨h0, rfl, feed_unknown h h0 hl⟩))
     | some self =>
       cases ha : appendRequestBlock self req b with
-      | error e => exact Or.inr (Or.inr (Or.inl ⟨h0, self, e, rfl, ha, feed_append_error h h0 hl ha⟩))
-      | ok self' => exact Or.inr (Or.inr (Or.inr ⟨h0, self, self', rfl, ha, feed_append_ok h h0 hl ha⟩))
+      | error e =>
+        exact Or.inr (Or.inr (Or.inr (Or.inl ⟨h0, self, e, rfl, ha, feed_append_error h h0 hl ha⟩)))
+      | ok self' =>
+        exact Or.inr (Or.inr (Or.inr (Or.inr ⟨h0, self, self', rfl, ha, feed_append_ok h h0 hl ha⟩)))
 
 /-- a Block1 request that comes out of `feed_and_take` leaves nothing under its block key: the
 completed assembly is taken out of the spool -/
 theorem feed_pass_absent {T now : Nat} {sp : TD Key Msg} {req m : Msg} {b : Blk}
     (h : req.block1 = some b) (hp : (feedAndTake T now sp req).2 = .pass m) :
     alookup (blockKey req) (feedAndTake T now sp req).1.items = none := by
-  rcases feed_cases T now sp req b h with ⟨h0, e⟩ | ⟨h0, _, e⟩ | ⟨h0, self, er, hl, ha, e⟩ |
-      ⟨h0, self, self', hl, ha, e⟩
+  rcases feed_cases T now sp req b h with ⟨h0, _, e⟩ | ⟨h0, _, e⟩ | ⟨h0, _, e⟩ |
+      ⟨h0, self, er, hl, ha, e⟩ | ⟨h0, self, self', hl, ha, e⟩
+  · rw [e] at hp; simp at hp
   · rw [e] at hp ⊢
     by_cases hm : b.more = true
     · simp [hm] at hp
@@ -131,8 +145,9 @@ theorem feed_ne_keyError (T now : Nat) (sp : TD Key Msg) (req : Msg) :
   cases h : req.block1 with
   | none => simp [feed_none h]
   | some b =>
-    rcases feed_cases T now sp req b h with ⟨_, e⟩ | ⟨_, _, e⟩ | ⟨_, self, er, _, _, e⟩ |
-        ⟨_, self, self', _, _, e⟩
+    rcases feed_cases T now sp req b h with ⟨_, _, e⟩ | ⟨_, _, e⟩ | ⟨_, _, e⟩ |
+        ⟨_, self, er, _, _, e⟩ | ⟨_, self, self', _, _, e⟩
+    · rw [e]; simp
     · rw [e]; split <;> simp
     · rw [e]; simp
     · rw [e]; cases er <;> simp [feedOfErr]
@@ -147,7 +162,7 @@ theorem append_ok_iff {self next : Msg} {b : Blk} {self' : Msg} :
       self' = { self with
                 payload := self.payload ++ next.payload
                 block1 := some b
-                block2 := if !b.more && next.block2.isSome then next.block2 else self.block2 } := by
+                block2 := if !b.more then next.block2 else self.block2 } := by
   unfold appendRequestBlock
   by_cases h1 : isRequestCode self.code = true
   · by_cases h2 : sizeOk b next.payload.length = true
@@ -173,6 +188,47 @@ theorem append_valueError_iff {self next : Msg} {b : Blk} :
   unfold appendRequestBlock
   by_cases h1 : isRequestCode self.code = true <;> by_cases h2 : sizeOk b next.payload.length = true <;>
     by_cases h3 : b.start = self.payload.length <;> simp [h1, h2, h3]
+
+/-- the two ways a payload length contradicts a block size make the size test fail -/
+theorem sizeOk_false_of_contradiction {b : Blk} {len : Nat}
+    (hsize : (b.more = true ∧ len ≠ b.size ∧ ¬ (b.szx = 7 ∧ len % b.size = 0)) ∨
+             (b.more = false ∧ b.szx ≠ 7 ∧ b.size < len)) : sizeOk b len = false := by
+  rcases hsize with ⟨h1, h2, h3⟩ | ⟨h1, h2, h3⟩
+  · simp only [sizeOk, h1, ↓reduceIte, Bool.or_eq_false_iff, beq_eq_false_iff_ne,
+      ne_eq, Bool.and_eq_false_imp, beq_iff_eq]
+    exact ⟨h2, fun h7 h => h3 ⟨h7, h⟩⟩
+  · simp only [sizeOk, h1, Bool.false_eq_true, ↓reduceIte, Bool.or_eq_false_iff,
+      beq_eq_false_iff_ne, ne_eq, decide_eq_false_iff_not]
+    exact ⟨h2, by omega⟩
+
+/-- what comes out of `feed_and_take` carries the block options of the request that went in -/
+theorem feed_pass_options {T now : Nat} {sp : TD Key Msg} {req m : Msg}
+    (hp : (feedAndTake T now sp req).2 = .pass m) :
+    m.block1 = req.block1 ∧ m.block2 = req.block2 := by
+  cases hb : req.block1 with
+  | none =>
+    rw [feed_none hb] at hp
+    simp only [Feed.pass.injEq] at hp
+    subst hp; exact ⟨hb, rfl⟩
+  | some b =>
+    rcases feed_cases T now sp req b hb with ⟨_, _, e⟩ | ⟨_, _, e⟩ | ⟨_, _, e⟩ |
+        ⟨_, self, er, _, _, e⟩ | ⟨_, self, self', _, ha, e⟩
+    · rw [e] at hp; simp at hp
+    · rw [e] at hp
+      by_cases hm : b.more = true
+      · simp [hm] at hp
+      · simp only [hm, Bool.false_eq_true, ↓reduceIte, Feed.pass.injEq] at hp
+        subst hp; exact ⟨hb, rfl⟩
+    · rw [e] at hp; simp at hp
+    · rw [e] at hp; cases er <;> simp [feedOfErr] at hp
+    · rw [e] at hp
+      by_cases hm : b.more = true
+      · simp [hm] at hp
+      · simp only [hm, Bool.false_eq_true, ↓reduceIte, Feed.pass.injEq] at hp
+        subst hp
+        obtain ⟨_, _, _, e'⟩ := append_ok_iff.mp ha
+        have hm' : b.more = false := by simpa using hm
+        rw [e']; simp [hm']
 
 -- closed forms of Message._extract_block ---------------------------------------------------------
 
@@ -324,10 +380,11 @@ theorem passes_plain {T : Nat} {st : RState} {i : In} (ha : i.assemble = true)
     (h : i.req.block1 = none) : Passes T st i i.req :=
   ⟨ha, by rw [feed_none h]⟩
 
-/-- a Block1 block is *accepted* when it starts an assembly (number 0) or continues the one
-stored under its block key exactly where that ends, with a payload that fits its size -/
+/-- a Block1 block is *accepted* when its payload fits its size and it either starts an assembly
+(number 0) or continues the one stored under its block key exactly where that ends -/
 def Accepted (T : Nat) (st : RState) (i : In) (b : Blk) : Prop :=
-  b.num = 0 ∨ ∃ asm, alookup (blockKey i.req) (spoolAt T st i).items = some asm ∧
+  (b.num = 0 ∧ sizeOk b i.req.payload.length = true) ∨
+  ∃ asm, alookup (blockKey i.req) (spoolAt T st i).items = some asm ∧
     isRequestCode asm.code = true ∧ sizeOk b i.req.payload.length = true ∧
     b.start = asm.payload.length
 
